@@ -255,7 +255,6 @@ def attrPairs : List XAttr → List (Bytes × Bytes)
   | [] => []
   | .mk n (.esc v) :: r => (n, v) :: attrPairs r
   | .mk n (.lit v) :: r => (n, v) :: attrPairs r
-  | .raw _ :: r => attrPairs r
 
 mutual
 /-- One element per node: the kind's element name, the attributes the format carries (literal,
